@@ -222,53 +222,93 @@ func c01r8(p *model.Prog, r *report.Result) {
 	for _, fn := range lalFuncsIn(p, "pkg/remux") {
 		for _, ci := range model.CallsTo(fn, m2c) {
 			n++
-			payload := ci.Common().Args[0]
-			// where does the payload come from: a field path X.Payload
-			fp, isField := loadPath(payload)
-			ok := false
+			// the payload may be a merge (original payload on one way, rewritten on another): each
+			// alternative is judged at the end of the block it comes from
+			type alt struct {
+				v  ssa.Value
+				at ssa.Instruction // the alternative must be consistent when control passes here
+			}
+			var alts []alt
+			var expand func(v ssa.Value, at ssa.Instruction, d int)
+			expand = func(v ssa.Value, at ssa.Instruction, d int) {
+				if ph, ok := v.(*ssa.Phi); ok && d < 4 {
+					for i, e := range ph.Edges {
+						pred := ph.Block().Preds[i]
+						expand(e, pred.Instrs[len(pred.Instrs)-1], d+1)
+					}
+					return
+				}
+				alts = append(alts, alt{v, at})
+			}
+			expand(ci.Common().Args[0], ci, 0)
+			ok := true
 			why := ""
-			if isField && len(fp.Fields) >= 1 && fp.Fields[len(fp.Fields)-1] == payloadF {
-				// the message object whose Payload is passed: was its Payload field assigned in this function?
-				reassigned := false
-				var lastAssign *ssa.Store
-				for _, st := range model.FieldStores(fn, payloadF) {
-					if sameRoot(storeBase(st), fp.Base) || storeBaseMatches(st, payload) {
-						if model.InstrDominates(st, ci) {
-							reassigned = true
-							lastAssign = st
-						}
-					}
+			for _, al := range alts {
+				o, w := c01r8Alt(fn, ci, al.v, al.at, msgLen, payloadF)
+				if !o {
+					ok = false
 				}
-				if !reassigned {
-					ok, why = true, "received header with received payload"
-				} else {
-					// MsgLen must be assigned len(Payload) after that assignment, before the call
-					for _, st := range model.FieldStores(fn, msgLen) {
-						l, isLen := lenOf(model.Unwrap(st.Val))
-						if !isLen || !model.InstrDominates(lastAssign, st) || !model.InstrDominates(st, ci) {
-							continue
-						}
-						if lf, ok2 := loadPath(l); ok2 && len(lf.Fields) >= 1 && lf.Fields[len(lf.Fields)-1] == payloadF {
-							ok, why = true, "MsgLen re-computed from the new payload"
-						}
-					}
-				}
-			} else if c, isCall := payload.(*ssa.Call); isCall && model.CalleeObj(c.Common()) != nil && model.CalleeObj(c.Common()).Name() == "Payload" && len(model.FieldStores(fn, msgLen)) == 0 {
-				ok, why = true, "header and payload both derived, unmodified, from the same tag"
-			} else {
-				// a computed payload (rewritten metadata, a merge of alternatives): MsgLen must be len(payload)
-				for _, st := range model.FieldStores(fn, msgLen) {
-					if l, isLen := lenOf(model.Unwrap(st.Val)); isLen && l == payload && model.InstrDominates(st, ci) {
-						ok, why = true, "MsgLen = len(payload)"
-					}
+				if why == "" || !o {
+					why = w
 				}
 			}
 			r.Check(ok, "C01.R8", fkey(fn, "m2c", "MsgLen"), p.InstrPos(ci), why, "the header passed to Message2Chunks keeps the MsgLen of the original message although the payload was rewritten (e.g. @setDataFrame added): the consumer gets a truncated message and loses chunk sync")
 		}
 	}
-	if n < 4 {
+	if n < 2 {
 		r.Bad("C01.R8", "floor", "", fmt.Sprintf("only %d Message2Chunks calls found in pkg/remux", n))
 	}
+}
+
+// c01r8Alt: is the header's MsgLen the length of payload alternative v when control passes `at`
+// on the way to the Message2Chunks call ci?
+func c01r8Alt(fn *ssa.Function, ci ssa.CallInstruction, v ssa.Value, at ssa.Instruction, msgLen, payloadF *types.Var) (bool, string) {
+	dom := func(a ssa.Instruction) bool { return a == at || model.InstrDominates(a, at) }
+	fp, isField := loadPath(v)
+	if isField && len(fp.Fields) >= 1 && fp.Fields[len(fp.Fields)-1] == payloadF {
+		// the message object whose Payload is passed: was its Payload field assigned in this function?
+		var lastAssign *ssa.Store
+		for _, st := range model.FieldStores(fn, payloadF) {
+			if (sameRoot(storeBase(st), fp.Base) || storeBaseMatches(st, v)) && dom(st) {
+				lastAssign = st
+			}
+		}
+		if lastAssign == nil {
+			// the received payload: fine unless MsgLen was re-assigned from another value on this way
+			for _, st := range model.FieldStores(fn, msgLen) {
+				if !dom(st) {
+					continue
+				}
+				if l, isLen := lenOf(model.Unwrap(st.Val)); !isLen || l != v {
+					if _, sameField := loadPath(l); !sameField {
+						return false, "MsgLen overwritten although the received payload is passed"
+					}
+				}
+			}
+			return true, "received header with received payload"
+		}
+		// MsgLen must be assigned len(Payload) after that assignment, before the call
+		for _, st := range model.FieldStores(fn, msgLen) {
+			l, isLen := lenOf(model.Unwrap(st.Val))
+			if !isLen || !model.InstrDominates(lastAssign, st) || !dom(st) {
+				continue
+			}
+			if lf, ok2 := loadPath(l); ok2 && len(lf.Fields) >= 1 && lf.Fields[len(lf.Fields)-1] == payloadF {
+				return true, "MsgLen re-computed from the new payload"
+			}
+		}
+		return false, ""
+	}
+	if c, isCall := v.(*ssa.Call); isCall && model.CalleeObj(c.Common()) != nil && model.CalleeObj(c.Common()).Name() == "Payload" && len(model.FieldStores(fn, msgLen)) == 0 {
+		return true, "header and payload both derived, unmodified, from the same tag"
+	}
+	// a computed payload (rewritten metadata): MsgLen must be len(payload), assigned on this way
+	for _, st := range model.FieldStores(fn, msgLen) {
+		if l, isLen := lenOf(model.Unwrap(st.Val)); isLen && l == v && dom(st) {
+			return true, "MsgLen = len(payload)"
+		}
+	}
+	return false, ""
 }
 
 func storeBaseMatches(st *ssa.Store, payloadLoad ssa.Value) bool {
@@ -474,10 +514,65 @@ func c10r7(p *model.Prog, r *report.Result) {
 			a1, a2 := idxOf(ci.Common().Args[1]), idxOf(ci.Common().Args[2])
 			app, okA := argPos[outer.Params[1]]
 			str, okS := argPos[outer.Params[2]]
+			// the task may also capture the parameters directly (a closure variable instead of the
+			// task's argument list)
+			captured := func(v ssa.Value) *ssa.Parameter {
+				if u, ok := v.(*ssa.UnOp); ok && u.Op == token.MUL {
+					v = u.X
+				}
+				fv, ok := v.(*ssa.FreeVar)
+				if !ok || fnc.Parent() != outer {
+					return nil
+				}
+				for i, f := range fnc.FreeVars {
+					if f != fv {
+						continue
+					}
+					for _, ref := range *fnc.Referrers() {
+						mc, isMC := ref.(*ssa.MakeClosure)
+						if !isMC || i >= len(mc.Bindings) {
+							continue
+						}
+						b := mc.Bindings[i]
+						if prm, isP := b.(*ssa.Parameter); isP {
+							return prm
+						}
+						if al, isAl := b.(*ssa.Alloc); isAl {
+							return paramOfAlloc(al)
+						}
+					}
+				}
+				return nil
+			}
+			if c1, c2 := captured(ci.Common().Args[1]), captured(ci.Common().Args[2]); c1 != nil || c2 != nil {
+				r.Check(c1 == outer.Params[1] && c2 == outer.Params[2], "C10.R7", fkey(fnc, "cleanup", "lookup-own-stream"), p.InstrPos(ci), "GetGroup(appName, streamName) of the stream that ended", "the deferred cleanup looks up another (app, stream) pair than the one it was scheduled for: the lookup misses, the 'hls muxer still alive' guard is skipped and the directory of the re-published live stream is removed")
+				continue
+			}
 			r.Check(okA && okS && a1 == app && a2 == str, "C10.R7", fkey(fnc, "cleanup", "lookup-own-stream"), p.InstrPos(ci), "GetGroup(appName, streamName) of the stream that ended", "the deferred cleanup looks up another (app, stream) pair than the one it was scheduled for: the lookup misses, the 'hls muxer still alive' guard is skipped and the directory of the re-published live stream is removed")
 		}
 	}
 	if n != 1 {
 		r.Bad("C10.R7", "floor", p.Pos(outer.Pos()), "the GetGroup lookup of the deferred cleanup was not found")
 	}
+}
+
+// paramOfAlloc: the parameter a local cell was initialised from (a captured parameter is spilled
+// to a cell), nil when the cell is stored anything else.
+func paramOfAlloc(al *ssa.Alloc) *ssa.Parameter {
+	var prm *ssa.Parameter
+	if al.Referrers() == nil {
+		return nil
+	}
+	for _, ref := range *al.Referrers() {
+		st, ok := ref.(*ssa.Store)
+		if !ok || st.Addr != ssa.Value(al) {
+			continue
+		}
+		q, isP := st.Val.(*ssa.Parameter)
+		if !isP || (prm != nil && prm != q) {
+			return nil
+		}
+		prm = q
+	}
+	return prm
 }
